@@ -253,7 +253,14 @@ func (r *runner) quiesce() bool {
 			ok = true
 			break
 		}
-		time.Sleep(300 * time.Microsecond)
+		time.Sleep(500 * time.Microsecond)
+	}
+	if ok && !r.isClosed() && gortsplib.VerifClientSnapshot(r.c).MustClose {
+		// the run loop is on its way out (doClose): wait until it is done
+		select {
+		case <-r.waited:
+		case <-time.After(2 * time.Second):
+		}
 	}
 	if ok && r.srv.killer.Swap(false) && !r.isClosed() {
 		// something was written that may kill the client: give the reader time to find it
